@@ -16,8 +16,8 @@ type Cfg struct {
 	Try         bool     // (try (fn [] …)) error-absorbing host callback
 	HigherOrder bool     // closures as arguments / return values
 	Variadic    bool
-	TrOneIn     int // wrap a sub-expression in (tr id …) with probability 1/TrOneIn (0 = never)
-	MaxStmts    int // statements per body (default 3)
+	TrOneIn     int  // wrap a sub-expression in (tr id …) with probability 1/TrOneIn (0 = never)
+	MaxStmts    int  // statements per body (default 3)
 	RetCloOneIn int  // a defn returns a closure with probability 1/RetCloOneIn (default 4)
 	Recursion   bool // self-recursive defn with a decreasing counter (tail and non-tail)
 	Alias       bool // (def gN fK) aliases
@@ -31,9 +31,9 @@ type G struct {
 	trn int64
 	fnn int
 	// statistics for the non-triviality rules
-	TopFns []FnSig
-	NCanary int
-	NRec, NTailRec, NAlias, NSubst, NSelfAnywhere int
+	TopFns                                                                                   []FnSig
+	NCanary                                                                                  int
+	NRec, NTailRec, NAlias, NSubst, NSelfAnywhere                                            int
 	NClosures, NShadow, NLoops, NBreaks, NLazyParams, NForce, NVariadic, NInj, NTry, NHigher int
 }
 
@@ -64,7 +64,7 @@ type sc struct {
 	loops                          []string
 	loopVars                       []string // loop variables of enclosing loops (not assigned in bodies: keeps loops finite)
 	inFn                           bool
-	inLoop                         bool // lexically inside a for body of the current function
+	inLoop                         bool   // lexically inside a for body of the current function
 	self                           *fnsig // the enclosing recursive function (counter n visible), nil otherwise
 	selfLeft                       *int   // remaining budget of extra self-call sites
 	selfOften                      bool
@@ -313,8 +313,8 @@ func (g *G) intE0(s *sc, d int) *N {
 			g.NTry++
 			ns := s.clone()
 			ns.loops = nil
-		ns.inLoop = false
-				return (&N{K: "try", A: g.stmts(ns, d-1, true)})
+			ns.inLoop = false
+			return (&N{K: "try", A: g.stmts(ns, d-1, true)})
 		}
 		k := []string{"and", "or"}[g.r(2)]
 		n := 1 + g.r(4)
@@ -806,7 +806,7 @@ func (g *G) stmt(s *sc, d int) *N {
 			ns.loops = nil
 			ns.inLoop = false
 			ns.inFn = true
-		ns.self = nil
+			ns.self = nil
 			for len(fn.Ps) < f.n {
 				p := g.pool()
 				if contains(fn.Ps, p) {
